@@ -277,6 +277,13 @@ def run(rep, tier, seed, replay):
         res = core.tlc_check('MC_Cursors.tla', 'MC_Cursors_two.cfg' if tier == 'quick' else 'MC_Cursors_two_thorough.cfg',
                              timeout=1500, coverage=(tier == 'thorough'))
         rep.add_design('MC_Cursors_two', res)
+        # an action is "never taken" only when neither configuration takes it (leader changes belong to the two-server
+        # configuration, restarts to the one-server configuration)
+        zero = {}
+        for z in rep.cov['coverage_zero_actions']:
+            cfg, name = z.split(':', 1)
+            zero.setdefault(name, set()).add(cfg)
+        rep.cov['coverage_zero_actions'] = sorted(n for n, c in zero.items() if len(c) == 2)
     num2, budget2 = (500, 90) if tier == 'quick' else (2000, 400)
     free2 = [b for b in core.tlc_simulate('MC_Cursors.tla', 'Sim_Cursors_two.cfg', num2, 16, seed) if len(b) > 1]
     fam2 = [b for b in core.tlc_simulate('MC_Cursors.tla', 'Sim_Cursors_hand.cfg', num2, 16, seed) if len(b) > 7]
